@@ -12,14 +12,16 @@ Import ListNotations.
    files at any position) and EVERY processing order: fuel never runs out, no `assert` of
    processModule/getProcessedModule fires, the unprocessed list is drained, the processing stack is
    empty again, every module ends PROCESSED iff it parsed (PROCESSING and reported exactly once
-   otherwise). *)
+   otherwise), and the event trace enters and leaves each parsed module exactly once. *)
 Theorem C01_process_total :
   forall (p : project) (order : list N),
     NoDup order -> (forall m, In m order <-> known p m) ->
     exists s', run_project p order = Ok s' /\ unproc s' = [] /\ stack s' = [] /\
                NoDup (reports s') /\
                (forall m i, lookup p m = Some i ->
-                            st s' m = final_of i /\ (In m (reports s') <-> parse_ok i = false)).
+                            st s' m = final_of i /\ (In m (reports s') <-> parse_ok i = false) /\
+                            (* entered / left / reported exactly once, never both *)
+                            counts m (trace s') = if parse_ok i then (1, 1, 0) else (0, 0, 1)).
 Proof. exact run_project_total. Qed.
 
 (* An unparsable file does not change the outcome of any other module. *)
